@@ -340,7 +340,7 @@ variable {F : Forest H} {L : List H} {ts : List Pos} {ps : List H}
 /-- the hash of the node at a position (zero where there is none) -/
 def tvF (F : Forest H) (q : Pos) : H := (F.nodeAt q).getD zero
 
-theorem ts_iff (cr : CR H) (hn : F.numLeaves < 2 ^ 64) (hy : Hyg F) (hc : F.canon L = some (ts, ps)) (t : Pos) :
+theorem ts_iff (nz : NZ H) (hn : F.numLeaves < 2 ^ 64) (hy : Hyg F) (hc : F.canon L = some (ts, ps)) (t : Pos) :
     t ∈ ts ↔ ∃ x, x ∈ L ∧ (t, x, true) ∈ F.nodes := by
   obtain ⟨ht, hp, _, _⟩ := canon_spec hc
   rw [ht, List.mem_map]
@@ -350,7 +350,7 @@ theorem ts_iff (cr : CR H) (hn : F.numLeaves < 2 ^ 64) (hy : Hyg F) (hc : F.cano
     rw [hpl]
     exact ⟨l, hl, posOf_mem hpl⟩
   · rintro ⟨x, hx, hm⟩
-    have := (posOf_iff F hn hy cr).2 hm
+    have := (posOf_iff F hn hy nz).2 hm
     exact ⟨x, hx, by rw [this]; rfl⟩
 
 theorem ps_node (hc : F.canon L = some (ts, ps)) {q : Pos} (hq : q ∈ pathSet F ts) :
@@ -425,9 +425,9 @@ theorem ps_hashes (hc : F.canon L = some (ts, ps)) : ps = (F.proofPositions ts).
   (canon_spec hc).2.2.1
 
 /-- the value of a target is its leaf, which belongs to `L` -/
-theorem ts_val (cr : CR H) (hn : F.numLeaves < 2 ^ 64) (hy : Hyg F) (hc : F.canon L = some (ts, ps))
+theorem ts_val (nz : NZ H) (hn : F.numLeaves < 2 ^ 64) (hy : Hyg F) (hc : F.canon L = some (ts, ps))
     {t : Pos} (ht : t ∈ ts) : tvF F t ∈ L ∧ (t, tvF F t, true) ∈ F.nodes := by
-  obtain ⟨x, hx, hm⟩ := (ts_iff cr hn hy hc t).1 ht
+  obtain ⟨x, hx, hm⟩ := (ts_iff nz hn hy hc t).1 ht
   have : tvF F t = x := by
     unfold tvF
     rw [SpecNodes.nodeAt_of_mem hm]; rfl
@@ -649,12 +649,12 @@ open SpecPlan CalcGeo CalcComplete
 /-- **`ingest` of the canonical proof of a duplicate-free list of live leaves** (with arbitrary
 surplus hashes appended) succeeds, preserves the strong invariant for the same forest, and adds
 exactly the leaves of `L` to the cache. -/
-theorem sinv_ingest (cr : CR H) {m : MapPollard H} {F : Forest H} (s : SInv m F)
+theorem sinv_ingest (nz : NZ H) {m : MapPollard H} {F : Forest H} (s : SInv m F)
     (L : List H) (ts : List Pos) (ps junk : List H) (hnd : L.Nodup) (hc : F.canon L = some (ts, ps)) :
     ∃ m', MapPollard.ingest L (ts.map (encP F.rows)) (ps ++ junk) m = (m', .ok ()) ∧ SInv m' F ∧
       (∀ y, m'.hasCached y = true ↔ (m.hasCached y = true ∨ y ∈ L)) := by
-  have I := s.inv cr
-  have Lw := s.laws cr
+  have I := s.inv nz
+  have Lw := s.laws nz
   have hn64 := s.n_lt64
   obtain ⟨A, C, rep, inv⟩ := s.abs
   have hT := s.total_le
@@ -733,8 +733,8 @@ theorem sinv_ingest (cr : CR H) {m : MapPollard H} {F : Forest H} (s : SInv m F)
       | none => (ts.map (E F.rows)).map (fun _ => zero)) = ts.map (valAt CTree.hash F) := by
     rw [canon_target_vals hc]
     simp [CTree.hash]
-  obtain ⟨r, h5, _, _, hnodes⟩ := calc_generic (Nat.le_of_lt s.n_lt) cr.nonzero s.hyg.nz hnd hc CTree.hash
-    (fun a b ga gb => hash_node_comb cr.nonzero ga gb) (fun _ _ _ _ _ _ _ => rfl) (some L) hdh junk
+  obtain ⟨r, h5, _, _, hnodes⟩ := calc_generic (Nat.le_of_lt s.n_lt) nz.nonzero s.hyg.nz hnd hc CTree.hash
+    (fun a b ga gb => hash_node_comb nz.nonzero ga gb) (fun _ _ _ _ _ _ _ => rfl) (some L) hdh junk
   have h5' : calculateHashes m1.numLeaves (some L) (ts.map (encP F.rows)) (ps ++ junk) = .ok r := by
     rw [hn1, s.n_eq]; exact h5
   -- (7) the calculated nodes in storage coordinates
@@ -762,7 +762,7 @@ theorem sinv_ingest (cr : CR H) {m : MapPollard H} {F : Forest H} (s : SInv m F)
     · rw [hTR2]; exact rep2
     · have key := ainv_ingest Lw inv (PS := pathSet F ts) (PP := F.proofPositions ts) (ts := ts)
         (tv := tvF F) (KL := fun x => x ∈ L) (C2 := C')
-        (ts_iff cr hn64 s.hyg hc)
+        (ts_iff nz hn64 s.hyg hc)
         (fun q hq => ps_node hc hq)
         (fun q hq => ps_anc hc hq)
         (fun t ht => targets_sub_pathSet tok ht)
@@ -773,7 +773,7 @@ theorem sinv_ingest (cr : CR H) {m : MapPollard H} {F : Forest H} (s : SInv m F)
           intro x t h
           rcases hC1 x t h with h | ⟨h1, h2, h3⟩
           · exact Or.inl h
-          · have := ts_val cr hn64 s.hyg hc (of_decide_eq_true h2)
+          · have := ts_val nz hn64 s.hyg hc (of_decide_eq_true h2)
             rw [h3] at this
             exact Or.inr this)
         (by
@@ -782,7 +782,7 @@ theorem sinv_ingest (cr : CR H) {m : MapPollard H} {F : Forest H} (s : SInv m F)
           constructor
           · rintro (h | ⟨t, h1, h2, h3⟩)
             · exact Or.inl h
-            · have := ts_val cr hn64 s.hyg hc (of_decide_eq_true h2)
+            · have := ts_val nz hn64 s.hyg hc (of_decide_eq_true h2)
               rw [h3] at this
               exact Or.inr this.1
           · rintro (h | h)
@@ -790,7 +790,7 @@ theorem sinv_ingest (cr : CR H) {m : MapPollard H} {F : Forest H} (s : SInv m F)
             · obtain ⟨_, hp, _, _⟩ := canon_spec hc
               obtain ⟨p, hpl⟩ := hp x h
               have hm := posOf_mem hpl
-              have hpts : p ∈ ts := (ts_iff cr hn64 s.hyg hc p).2 ⟨x, h, hm⟩
+              have hpts : p ∈ ts := (ts_iff nz hn64 s.hyg hc p).2 ⟨x, h, hm⟩
               refine Or.inr ⟨p, targets_sub_pathSet tok hpts, decide_eq_true hpts, ?_⟩
               unfold tvF
               rw [SpecNodes.nodeAt_of_mem hm]; rfl)
@@ -803,7 +803,7 @@ theorem sinv_ingest (cr : CR H) {m : MapPollard H} {F : Forest H} (s : SInv m F)
     constructor
     · rintro (h | ⟨t, h1, h2, h3⟩)
       · exact Or.inl h
-      · have := ts_val cr hn64 s.hyg hc (of_decide_eq_true h2)
+      · have := ts_val nz hn64 s.hyg hc (of_decide_eq_true h2)
         rw [h3] at this
         exact Or.inr this.1
     · rintro (h | h)
@@ -811,7 +811,7 @@ theorem sinv_ingest (cr : CR H) {m : MapPollard H} {F : Forest H} (s : SInv m F)
       · obtain ⟨_, hp, _, _⟩ := canon_spec hc
         obtain ⟨p, hpl⟩ := hp y h
         have hm := posOf_mem hpl
-        have hpts : p ∈ ts := (ts_iff cr hn64 s.hyg hc p).2 ⟨y, h, hm⟩
+        have hpts : p ∈ ts := (ts_iff nz hn64 s.hyg hc p).2 ⟨y, h, hm⟩
         refine Or.inr ⟨p, targets_sub_pathSet tok hpts, decide_eq_true hpts, ?_⟩
         unfold tvF
         rw [SpecNodes.nodeAt_of_mem hm]; rfl
@@ -842,12 +842,12 @@ theorem translatePos_small {h T : Nat} (hT : T ≤ 63) (hlt : h < T) {q : Pos} (
 /-- **`Verify(delHashes, proof, remember)` on the canonical proof of a duplicate-free list of live
 leaves** (with arbitrary surplus hashes appended) succeeds, preserves the strong invariant, and
 caches the leaves of `L` iff `remember` is set. -/
-theorem sinv_verifyM (cr : CR H) {m : MapPollard H} {F : Forest H} (s : SInv m F)
+theorem sinv_verifyM (nz : NZ H) {m : MapPollard H} {F : Forest H} (s : SInv m F)
     (L : List H) (ts : List Pos) (ps junk : List H) (hnd : L.Nodup) (hc : F.canon L = some (ts, ps))
     (remember : Bool) :
     ∃ m', MapPollard.verifyM L (ts.map (encP F.rows)) (ps ++ junk) remember m = (m', .ok ()) ∧ SInv m' F ∧
       (∀ y, m'.hasCached y = true ↔ (m.hasCached y = true ∨ (remember = true ∧ y ∈ L))) := by
-  have I := s.inv cr
+  have I := s.inv nz
   have h63 : F.rows ≤ 63 := MapInv.rows_le_63 I
   have tsV : ∀ t ∈ ts, MapInv.Valid F.rows t := by
     intro t ht
@@ -880,7 +880,7 @@ theorem sinv_verifyM (cr : CR H) {m : MapPollard H} {F : Forest H} (s : SInv m F
     · rw [if_neg hne]
   -- `Verify` accepts
   have hroots : m.getRoots.1 = F.roots := Props.C09.roots_eq I
-  have hver := Props.C02.honest_proof_verifies F (Nat.le_of_lt s.n_lt) cr.nonzero s.hyg.nz L ts ps junk hnd hc
+  have hver := Props.C02.honest_proof_verifies F (Nat.le_of_lt s.n_lt) nz.nonzero s.hyg.nz L ts ps junk hnd hc
   have hver' : verify m.numLeaves m.getRoots.1 L (ts.map (encP F.rows)) (ps ++ junk) =
       .ok (touchedIdx F.numLeaves ts) := by
     rw [hroots, s.n_eq]; exact hver
@@ -893,7 +893,7 @@ theorem sinv_verifyM (cr : CR H) {m : MapPollard H} {F : Forest H} (s : SInv m F
     refine ⟨m, by simp, s, ?_⟩
     intro y; simp
   | true =>
-    obtain ⟨m', hrun, s', hcache⟩ := sinv_ingest cr s L ts ps junk hnd hc
+    obtain ⟨m', hrun, s', hcache⟩ := sinv_ingest nz s L ts ps junk hnd hc
     refine ⟨m', ?_, s', ?_⟩
     · simp only [if_true]
       rw [hrun]
@@ -921,7 +921,7 @@ with one surplus hash -/
 example : ∃ m', MapPollard.verifyM [T.leaf 1, .leaf 3] (([(0, 1), (0, 3)] : List Pos).map (encP F5.rows))
       ([T.leaf 0, .leaf 2] ++ [T.leaf 77]) true m5 = (m', .ok ()) ∧ SInv m' F5 ∧
     (∀ y, m'.hasCached y = true ↔ (m5.hasCached y = true ∨ (true = true ∧ y ∈ [T.leaf 1, .leaf 3]))) :=
-  sinv_verifyM crT m5_sinv [T.leaf 1, .leaf 3] _ _ [T.leaf 77] (by decide) canon13 true
+  sinv_verifyM crT.toNZ m5_sinv [T.leaf 1, .leaf 3] _ _ [T.leaf 77] (by decide) canon13 true
 
 /-- … with the canonical proof obtained from `Props.C02.canon_defined` -/
 example : ∃ ts ps, F5.canon [T.leaf 1, .leaf 3] = some (ts, ps) ∧
@@ -929,14 +929,14 @@ example : ∃ ts ps, F5.canon [T.leaf 1, .leaf 3] = some (ts, ps) ∧
       SInv m' F5 := by
   obtain ⟨ts, ps, hc⟩ := Props.C02.canon_defined (F := F5) (by decide) (L := [T.leaf 1, .leaf 3])
     (by decide +kernel)
-  obtain ⟨m', h1, h2, _⟩ := sinv_verifyM crT m5_sinv [T.leaf 1, .leaf 3] ts ps [] (by decide) hc true
+  obtain ⟨m', h1, h2, _⟩ := sinv_verifyM crT.toNZ m5_sinv [T.leaf 1, .leaf 3] ts ps [] (by decide) hc true
   exact ⟨ts, ps, hc, m', h1, h2⟩
 
 /-- `sinv_ingest` likewise -/
 example : ∃ m', MapPollard.ingest [T.leaf 1, .leaf 3] (([(0, 1), (0, 3)] : List Pos).map (encP F5.rows))
       ([T.leaf 0, .leaf 2] ++ []) m5 = (m', .ok ()) ∧ SInv m' F5 ∧
     (∀ y, m'.hasCached y = true ↔ (m5.hasCached y = true ∨ y ∈ [T.leaf 1, .leaf 3])) :=
-  sinv_ingest crT m5_sinv [T.leaf 1, .leaf 3] _ _ [] (by decide) canon13
+  sinv_ingest crT.toNZ m5_sinv [T.leaf 1, .leaf 3] _ _ [] (by decide) canon13
 
 /-- the concrete call: targets 1 and 3 in API coordinates; afterwards all five leaves are cached
 (at their positions in storage coordinates) and nothing else changed in size -/
@@ -952,14 +952,14 @@ example : ([(0, 1), (0, 3)] : List Pos).map (encP F5.rows) = [1#64, 3#64] ∧
 def m5p : MapPollard T := (MapPollard.prune [T.leaf 0, T.leaf 2] m5).1
 
 theorem m5p_sinv : SInv m5p F5 :=
-  SInv.of_inv crT (Props.C09.invCheck_sound (by decide +kernel)) (by decide +kernel) F5_hyg
+  SInv.of_inv crT.toNZ (Props.C09.invCheck_sound (by decide +kernel)) (by decide +kernel) F5_hyg
     (rootFlagsCheck_sound (by decide +kernel) (by decide +kernel))
 
 /-- `sinv_verifyM` on the pruned state (here the two proof hashes and three path nodes are new) -/
 example : ∃ m', MapPollard.verifyM [T.leaf 1, .leaf 3] (([(0, 1), (0, 3)] : List Pos).map (encP F5.rows))
       ([T.leaf 0, .leaf 2] ++ [T.leaf 77]) true m5p = (m', .ok ()) ∧ SInv m' F5 ∧
     (∀ y, m'.hasCached y = true ↔ (m5p.hasCached y = true ∨ (true = true ∧ y ∈ [T.leaf 1, .leaf 3]))) :=
-  sinv_verifyM crT m5p_sinv [T.leaf 1, .leaf 3] _ _ [T.leaf 77] (by decide) canon13 true
+  sinv_verifyM crT.toNZ m5p_sinv [T.leaf 1, .leaf 3] _ _ [T.leaf 77] (by decide) canon13 true
 
 example : m5p.nodes.length = 2 ∧ m5p.cached = [(.leaf 4, 4#64)] ∧
     (MapPollard.verifyM [T.leaf 1, .leaf 3] [1#64, 3#64] [T.leaf 0, .leaf 2, .leaf 77] true m5p).2.isOk = true ∧
